@@ -220,6 +220,41 @@ def sc_gst(d, n, b, method):
     d.witness(sum(miss) < n, "some_labeled")
 
 
+# ---------------------------------------------------------------- ValueOfInformationEER end to end (refits inside the strategy)
+def sc_eer_voi(d, n, K, encs, subtract_current):
+    """symbolic run: stub classifier whose fitted model is a function of (X, encoded y, weights) - the real
+    SkactivemlClassifier._validate_data encodes the labels, so equal training sets under two encodings give the same
+    model; concrete replay: the real ParzenWindowClassifier"""
+    P = pl.pool()
+    idx = [d.choose(f"label{i}", [-1] + list(range(K))) for i in range(n)]
+    if all(k >= 0 for k in idx):
+        if d.sym:
+            raise core.PathAbort("no candidate")
+        return
+    X = d.arr([[d.fl(f"x{i}", lo=-4.0, hi=4.0)] for i in range(n)], shape=(n, 1))
+    seed = d.integer("seed", 0, 2 ** 31 - 2)
+    outs = []
+    for enc in encs:
+        e = ENC[enc]
+        if d.sym:
+            clf = models.StubClassifier(classes=e["classes"][:K], missing_label=e["missing"], n_classes=K, gen=11, validate=True)
+        else:
+            from skactiveml.classifier import ParzenWindowClassifier
+            clf = ParzenWindowClassifier(classes=e["classes"][:K], missing_label=e["missing"])
+        qs = P.ValueOfInformationEER(subtract_current=subtract_current, missing_label=e["missing"], random_state=seed)
+        try:
+            outs.append(qs.query(X, encode(d, idx, enc), clf, fit_clf=True, batch_size=1, return_utilities=True))
+        except (core.Unencodable, core.PathAbort):
+            raise
+        except Exception as ex:
+            d.prove(False, "query_succeeds_under_every_encoding", info=dict(encoding=enc, error=repr(ex)[:160]))
+            return
+    ref = outs[0]
+    for enc, o in zip(encs[1:], outs[1:]):
+        d.prove(d.eq_arr(o[1], ref[1], 1e-9), "same_utilities_under_every_encoding", info=dict(encoding=enc))
+    d.witness(any(k >= 0 for k in idx), "some_labeled")
+
+
 # ---------------------------------------------------------------- EER sample concatenation
 def sc_eer_concat(d, n, K, enc, with_eval):
     P = pl.pool()
@@ -308,6 +343,14 @@ HARNESSES = [
     dual_harness("greedy_sampling_target", sc_gst,
                  lambda tier: [dict(n=n, b=b, method=m) for n in ((3,) if tier == "quick" else (3, 4)) for b in (1, 2) for m in ("GSy", "GSi")],
                  UNITS[:9] + UNITS[15:16], required_witnesses=("some_labeled",), product_abstraction=True),
+    dual_harness("eer_value_of_information", sc_eer_voi,
+                 lambda tier: [dict(n=3, K=2, encs=e, subtract_current=sc) for sc in (False, True)
+                               for e in ([PAIRS_Q[0]] if tier == "quick" else PAIRS_Q)],
+                 UNITS[:9] + ["skactiveml.pool._expected_error_reduction:ExpectedErrorReduction.query",
+                              "skactiveml.pool._expected_error_reduction:ValueOfInformationEER._estimate_error_for_candidate",
+                              "skactiveml.pool._expected_error_reduction:ValueOfInformationEER._estimate_current_error",
+                              "skactiveml.pool.utils:IndexClassifierWrapper.fit", "skactiveml.pool.utils:IndexClassifierWrapper.partial_fit"],
+                 required_witnesses=("some_labeled",), product_abstraction=True, timeout_ms=30000, resample=20),
     dual_harness("eer_concatenate_samples", sc_eer_concat,
                  lambda tier: [dict(n=2, K=2, enc=e, with_eval=w) for e in ENC for w in (False, True)], UNITS[8:10] + UNITS[16:17],
                  required_witnesses=("ran",)),
